@@ -8,6 +8,7 @@ import SqlcModel.Driver.C11
 import SqlcModel.Driver.C12
 import SqlcModel.Driver.C03
 import SqlcModel.Driver.L2Props
+import SqlcModel.Driver.C01
 open Lean Sqlc.Drv
 
 def dispatch (prop kind : String) (inp impl : Json) : Verdict :=
@@ -20,6 +21,7 @@ def dispatch (prop kind : String) (inp impl : Json) : Verdict :=
   | "C11" => c11 kind inp impl
   | "C12" => c12 kind inp impl
   | "C03" => c03 kind inp impl
+  | "C01" => c01 kind inp impl
   | "C02" => c02 kind inp impl
   | "C05" => c05 kind inp impl
   | "C06" => c06 kind inp impl
